@@ -22,39 +22,40 @@ type Engine struct {
 	checked []bool
 	pos     int
 	// stats
-	Instrs    int
-	Paths     int
-	Unknowns  int
-	FuncsSeen map[string]bool
-	StubsSeen map[string]bool
-	obl       map[string]*OblResult
-	oblSeen   map[string]bool
-	covers    map[string]bool
-	observed  []string
-	notes     map[string]bool
-	inputs    []Term
-	kinds     []string
-	depth     int
-	trace     bool
-	initMode  bool
+	Instrs        int
+	Paths         int
+	Unknowns      int
+	FuncsSeen     map[string]bool
+	StubsSeen     map[string]bool
+	obl           map[string]*OblResult
+	oblSeen       map[string]bool
+	covers        map[string]bool
+	observed      []string
+	notes         map[string]bool
+	inputs        []Term
+	kinds         []string
+	depth         int
+	trace         bool
+	initMode      bool
 	curPanicFrame *frame
-	lastPanic Value
-	axioms    []Term
-	aesSeen   map[string]bool
-	pathData  map[string]interface{} // per-path scratch for stubs
-	vecPos    int
-	loopCount map[*ssa.BasicBlock]int
-	elemOf    map[*Value]elemRef
-	allocBudget int64
-	hooks       map[string]Value
-	sch         *sched
-	killAck     chan struct{}
-	schedLog    []int
-	cexPrefer   *Term
-	allocSmall  int64
-	allocLarge  int
-	sampled     int
-	sizeCapped  int
+	lastPanic     Value
+	axioms        []Term
+	aesSeen       map[string]bool
+	pathData      map[string]interface{} // per-path scratch for stubs
+	vecPos        int
+	loopCount     map[*ssa.BasicBlock]int
+	elemOf        map[*Value]elemRef
+	allocBudget   int64
+	hooks         map[string]Value
+	sch           *sched
+	switchBudget  int
+	killAck       chan struct{}
+	schedLog      []int
+	cexPrefer     *Term
+	allocSmall    int64
+	allocLarge    int
+	sampled       int
+	sizeCapped    int
 }
 
 var sizes = types.SizesFor("gc", "amd64")
@@ -106,6 +107,7 @@ func (e *Engine) beginPath() {
 	e.hooks = map[string]Value{}
 	e.sch = nil
 	e.schedLog = nil
+	e.switchBudget = 2
 	e.allocSmall, e.allocLarge = 0, 0
 	e.vecPos = 0
 	e.depth = 0
@@ -750,7 +752,9 @@ func (e *Engine) step(fr *frame, in ssa.Instruction) {
 	}
 }
 
-func (e *Engine) goPanicStr(s string) { panic(goPanic{Iface{T: types.Typ[types.String], V: "runtime error: " + s}}) }
+func (e *Engine) goPanicStr(s string) {
+	panic(goPanic{Iface{T: types.Typ[types.String], V: "runtime error: " + s}})
+}
 
 func (e *Engine) index(idx Term, n int) int {
 	if idx.IsConst() {
